@@ -105,6 +105,9 @@ type verifStore struct {
 	armed string // hook: forged reply for the next EVALSHA / EVAL
 	hits  int
 	pings int // PINGs of monitor goroutines that failed during an outage
+	gate        int           // hook: hold every EVALSHA until this many have arrived
+	arrived     int
+	gateCh      chan struct{}
 	nSha, nEval int  // EVALSHA / EVAL commands that arrived (whatever became of them)
 	loaded      bool // the script is in the server's cache (an EVAL was executed)
 }
@@ -116,6 +119,14 @@ func (s *verifStore) hook(c *server.Peer, cmd string, args ...string) bool {
 	if a != "" && ev {
 		s.hits++
 	}
+	var wait chan struct{}
+	if cmd == "EVALSHA" && s.gate > 0 {
+		s.arrived++
+		wait = s.gateCh
+		if s.arrived == s.gate {
+			close(s.gateCh)
+		}
+	}
 	if cmd == "EVALSHA" {
 		s.nSha++
 	} else if cmd == "EVAL" {
@@ -125,6 +136,12 @@ func (s *verifStore) hook(c *server.Peer, cmd string, args ...string) bool {
 		}
 	}
 	s.mu.Unlock()
+	if wait != nil {
+		select {
+		case <-wait:
+		case <-time.After(2 * time.Second): // a caller never arrived (cut off by the breaker): give up
+		}
+	}
 	if a != "" && ev {
 		switch {
 		case a == "err":
@@ -494,6 +511,49 @@ func verifTokenOnce(c verifCase) (out verifOut) {
 			st.mu.Unlock()
 			brk := !(before && !after && !st.down && fault == "" && notRun)
 			out.Obs = append(out.Obs, []bool{ok, before, after, brk})
+		case "par": // ["par", i, [n1, n2, ...]]: concurrent calls on ONE instance during an outage
+			i := vnum(op[1])
+			sizes := op[2].([]any)
+			before := verifAlive(lims[i])
+			if before != expect[i] {
+				out.Disturbed = true
+			}
+			res := make([][]bool, len(sizes))
+			if before && st.down && !st.hard {
+				// all callers pass the redisAlive check before any of them gets its (error) reply:
+				// the hook holds the EVALSHA commands until all have arrived
+				st.mu.Lock()
+				st.gate, st.arrived, st.gateCh = len(sizes), 0, make(chan struct{})
+				st.mu.Unlock()
+				var wg sync.WaitGroup
+				for k, v := range sizes {
+					wg.Add(1)
+					go func(k int, n int) {
+						defer wg.Done()
+						ok := lims[i].AllowN(time.UnixMilli(clock), n)
+						res[k] = []bool{ok, true, verifAlive(lims[i]), true}
+					}(k, int(vnum(v)))
+				}
+				wg.Wait()
+				st.mu.Lock()
+				if st.arrived != len(sizes) {
+					out.Disturbed = true
+				}
+				st.gate = 0
+				st.mu.Unlock()
+				// each caller reports the flag as it finds it after ITS call; the last word is the flag now
+				for k := range res {
+					res[k][2] = verifAlive(lims[i])
+				}
+			} else {
+				for k, v := range sizes {
+					b := verifAlive(lims[i])
+					ok := lims[i].AllowN(time.UnixMilli(clock), int(vnum(v)))
+					res[k] = []bool{ok, b, verifAlive(lims[i]), true}
+				}
+			}
+			expect[i] = verifAlive(lims[i])
+			out.Obs = append(out.Obs, map[string]any{"par": res, "gated": before && st.down && !st.hard})
 		case "adv":
 			d := vnum(op[1])
 			clock += d
